@@ -10,6 +10,8 @@
 package proxy
 
 import (
+	"bytes"
+	"crypto/tls"
 	"io"
 	"net"
 	"net/netip"
@@ -36,6 +38,7 @@ type vec struct {
 	BaseURL    string
 	Secure     bool
 	Subdomains string
+	ran        bool // the handler ran (a wire request can be refused by the server before)
 }
 
 func (v *vec) m() map[string]any {
@@ -405,26 +408,72 @@ type pair struct {
 	ipElems []ipElem // structure of the ProxyHeader value, if sent
 	ipSent  bool
 	dup     bool
+
+	wire  bool    // parsed from wire bytes (raw header block keeps the sent spelling) instead of direct drive
+	extra []fwd   // other request headers, sent with both twins
+	donor *config // the app is built from another app's Config() whose trust settings were then replaced by cfg
+	app   *fiber.App
 }
+
+type tlsScript struct{ *drive.ScriptConn }
+
+func (tlsScript) Handshake() error                     { return nil }
+func (tlsScript) ConnectionState() tls.ConnectionState { return tls.ConnectionState{} }
 
 func (p *pair) m() map[string]any {
 	hs := make([]string, len(p.hdrs))
 	for i, h := range p.hdrs {
 		hs[i] = h.name + ": " + h.val
 	}
-	return map[string]any{"config": p.cfg.m(), "peer": p.remote.String(), "peer_ip_bytes": len(p.remote.IP), "host_header": p.host, "tls": p.tls, "forwarding_headers": hs}
+	m := map[string]any{"config": p.cfg.m(), "peer": p.remote.String(), "peer_ip_bytes": len(p.remote.IP), "host_header": p.host, "tls": p.tls, "forwarding_headers": hs}
+	m["transport"] = "direct"
+	if p.wire {
+		m["transport"] = "wire"
+	}
+	if len(p.extra) > 0 {
+		xs := make([]string, len(p.extra))
+		for i, h := range p.extra {
+			xs[i] = h.name + ": " + h.val
+		}
+		m["other_headers"] = xs
+	}
+	if p.donor != nil {
+		m["config_taken_from_app_with"] = p.donor.m()
+	}
+	return m
 }
 
-func observe(cfg *config) (*drive.Direct, *vec) {
-	v := &vec{}
-	app := fiber.New(fiber.Config{
+func fiberConfig(cfg *config) fiber.Config {
+	return fiber.Config{
 		TrustProxy: true,
 		TrustProxyConfig: fiber.TrustProxyConfig{Proxies: append([]string(nil), cfg.proxies...),
 			Loopback: cfg.loopback, Private: cfg.private, LinkLocal: cfg.linkLocal},
 		ProxyHeader:        cfg.proxyHeader,
 		EnableIPValidation: cfg.validate,
-	})
+	}
+}
+
+func observe(p *pair) (*drive.Direct, *vec) {
+	v := &vec{}
+	cfg := p.cfg
+	var app *fiber.App
+	if p.donor == nil {
+		app = fiber.New(fiberConfig(cfg))
+	} else {
+		// the documented way to derive one app's configuration from another's: take Config(), change
+		// exported fields, pass it to New. Only the exported fields of what is passed count.
+		fc := fiber.New(fiberConfig(p.donor)).Config()
+		fc.TrustProxyConfig.Proxies = nil
+		if len(cfg.proxies) > 0 {
+			fc.TrustProxyConfig.Proxies = append([]string(nil), cfg.proxies...)
+		}
+		fc.TrustProxyConfig.Loopback, fc.TrustProxyConfig.Private, fc.TrustProxyConfig.LinkLocal = cfg.loopback, cfg.private, cfg.linkLocal
+		fc.ProxyHeader, fc.EnableIPValidation = cfg.proxyHeader, cfg.validate
+		app = fiber.New(fc)
+	}
+	p.app = app
 	app.Get("/", func(c fiber.Ctx) error {
+		v.ran = true
 		v.Trusted = c.IsProxyTrusted()
 		v.IP = strings.Clone(c.IP())
 		v.Host = strings.Clone(c.Host())
@@ -439,13 +488,84 @@ func observe(cfg *config) (*drive.Direct, *vec) {
 }
 
 func (p *pair) do(d *drive.Direct, v *vec, hdrs []fwd) vec {
-	rq := &drive.Req{Method: "GET", URI: "/", Host: p.host, Remote: p.remote, TLS: p.tls}
-	for _, h := range hdrs {
-		rq.Hdr = append(rq.Hdr, drive.H{K: h.name, V: h.val})
-	}
 	*v = vec{}
+	if p.wire {
+		var b bytes.Buffer
+		b.WriteString("GET / HTTP/1.1\r\nHost: " + p.host + "\r\n")
+		for _, hs := range [][]fwd{p.extra, hdrs} {
+			for _, h := range hs {
+				b.WriteString(h.name + ": " + h.val + "\r\n")
+			}
+		}
+		b.WriteString("\r\n")
+		sc := drive.NewScriptConn(b.Bytes(), p.remote)
+		var nc net.Conn = sc
+		if p.tls {
+			nc = tlsScript{sc}
+		}
+		_ = p.app.Server().ServeConn(nc)
+		return *v
+	}
+	rq := &drive.Req{Method: "GET", URI: "/", Host: p.host, Remote: p.remote, TLS: p.tls}
+	for _, hs := range [][]fwd{p.extra, hdrs} {
+		for _, h := range hs {
+			rq.Hdr = append(rq.Hdr, drive.H{K: h.name, V: h.val})
+		}
+	}
 	d.Do(rq)
 	return *v
+}
+
+// nameCase respells a field name (field names are case-insensitive).
+func nameCase(r *gen.Rand, n string, style int) string {
+	switch style {
+	case 1:
+		return strings.ToLower(n)
+	case 2:
+		return strings.ToUpper(n)
+	case 3:
+		b := []byte(strings.ToLower(n))
+		for i := range b {
+			if r.Bool() {
+				b[i] = strings.ToUpper(string(b[i]))[0]
+			}
+		}
+		return string(b)
+	}
+	return n
+}
+
+func nameStyle(n string) string {
+	canon := false
+	for _, k := range []string{hProto, hProtocol, hSsl, hURL, hHost, "X-Forwarded-For", "X-Real-IP", "Cf-Connecting-Ip", "Fly-Client-IP"} {
+		if k == n {
+			canon = true
+		}
+	}
+	switch {
+	case canon:
+		return ""
+	case n == strings.ToLower(n):
+		return "lower"
+	case n == strings.ToUpper(n):
+		return "upper"
+	}
+	return "mixed"
+}
+
+// inputClass is the input class of a forwarded value that did not take effect: which header and
+// value shape when the field name is in its canonical spelling, otherwise the spelling of the
+// name (field names are case-insensitive) and the transport that preserved it.
+func (p *pair) inputClass(name, class string) string {
+	for _, h := range p.hdrs {
+		if strings.EqualFold(h.name, name) && nameStyle(h.name) != "" {
+			if p.wire {
+				return "header-name-not-in-canonical-case|wire"
+			}
+			return "header-name-not-in-canonical-case|direct"
+		}
+	}
+	return class
 }
 
 func peerClass(a netip.Addr, form string) string {
@@ -488,6 +608,32 @@ func genPair(r *gen.Rand) *pair {
 		}
 	}
 	p.cfg = genConfig(r, p.peer)
+	if r.Chance(1, 4) {
+		// the app's configuration is taken from another app (which typically lists this peer) and
+		// its trust settings are emptied / replaced / extended before it is passed to New
+		p.donor = p.cfg
+		d := p.donor
+		switch r.PickW(50, 25, 25) {
+		case 0:
+			p.cfg = &config{loopback: d.loopback, private: d.private, linkLocal: d.linkLocal, proxyHeader: d.proxyHeader, validate: d.validate}
+			if r.Chance(1, 3) {
+				p.cfg.loopback, p.cfg.private, p.cfg.linkLocal = r.Chance(1, 4), r.Chance(1, 4), r.Chance(1, 4)
+			}
+		case 1:
+			p.cfg = genConfig(r, genAddr(r))
+		default:
+			c2 := *d
+			c2.proxies = append(append([]string(nil), d.proxies...), genEntry(r, genAddr(r)))
+			if r.Bool() {
+				c2.loopback, c2.private, c2.linkLocal = r.Chance(1, 4), r.Chance(1, 4), r.Chance(1, 4)
+			}
+			p.cfg = &c2
+		}
+	}
+	p.wire = r.Chance(7, 20)
+	if r.Chance(2, 5) {
+		p.extra = append(p.extra, gen.Pick(r, []fwd{{"X-Request-Id", "abc123"}, {"Accept", "*/*"}, {"User-Agent", "probe/1"}, {"X-Trace", "1"}, {"Cache-Control", "no-cache"}}))
+	}
 	p.host = gen.Pick(r, []string{"example.com", "app.example.com:8080", "a.b.c.example.org", "localhost:3000", "10.1.2.3:80", "[2001:db8::1]:8080", "tobi.ferrets.example.com"})
 	p.tls = r.Chance(1, 4)
 
@@ -539,6 +685,19 @@ func genPair(r *gen.Rand) *pair {
 		p.dup = true
 	}
 	gen.Shuffle(r, p.hdrs)
+	// field-name spelling: one style for the whole request, or one per header
+	style := r.PickW(45, 35, 10, 10)
+	perHeader := r.Chance(1, 4)
+	for i := range p.hdrs {
+		if perHeader {
+			style = r.PickW(45, 35, 10, 10)
+		}
+		p.hdrs[i].name = nameCase(r, p.hdrs[i].name, style)
+		if p.wire {
+			// a server trims optional whitespace around a field value
+			p.hdrs[i].val = strings.Trim(p.hdrs[i].val, " \t")
+		}
+	}
 	return p
 }
 
@@ -569,7 +728,7 @@ func hostOnly(h string) (string, bool) {
 }
 
 func judge(e *ev.Env, c *ev.Case, p *pair) {
-	d, v := observe(p.cfg)
+	d, v := observe(p)
 	var A, B vec
 	input := p.m()
 	// History: a request from a peer of the *other* trust class served first by the same app
@@ -598,6 +757,16 @@ func judge(e *ev.Env, c *ev.Case, p *pair) {
 		B = p.do(d, v, nil)
 	}) {
 		return
+	}
+	if p.wire {
+		e.Stat("pairs_wire", 1)
+		if !A.ran || !B.ran {
+			e.Stat("pairs_wire_request_refused_by_server", 1)
+			return
+		}
+	}
+	if p.donor != nil {
+		e.Stat("pairs_config_from_other_app", 1)
 	}
 	e.Eval(2)
 	ref := reference(p.cfg, p.peer)
@@ -664,6 +833,31 @@ func judge(e *ev.Env, c *ev.Case, p *pair) {
 	if !trusted {
 		e.Stat("pairs_untrusted", 1)
 		if A.Trusted {
+			if p.donor != nil {
+				// input class: what of the other app's set covers the peer (a range in any spelling the
+				// net package reads as a range containing it, else a listed address)
+				inherited := ""
+				for _, en := range p.donor.proxies {
+					if !strings.Contains(en, "/") {
+						continue
+					}
+					if _, n, err := net.ParseCIDR(en); err == nil && n.Contains(p.remote.IP) {
+						inherited = "cidr-range"
+					}
+				}
+				if inherited == "" {
+					for _, rsn := range reference(p.donor, p.peer).reasons {
+						if strings.HasPrefix(rsn, "listed-address") {
+							inherited = "listed-address"
+						}
+					}
+				}
+				if inherited != "" {
+					e.Violation(c, "C10|untrusted-peer-trusted|Ctx.IsProxyTrusted|config-taken-from-another-app|inherited="+inherited,
+						"the peer is outside the proxy set passed to New, but inside the set of the app whose Config() was reused", detail(nil))
+					return
+				}
+			}
 			e.Violation(c, "C10|untrusted-peer-trusted|Ctx.IsProxyTrusted|peer="+peerClass(p.peer, "addr"), "peer is outside the configured proxy set but IsProxyTrusted() is true", detail(nil))
 			return
 		}
@@ -761,7 +955,7 @@ func judge(e *ev.Env, c *ev.Case, p *pair) {
 					if strings.Contains(val, ",") {
 						cl = "list-value"
 					}
-					e.Violation(c, "C10|trusted-forwarded-value|Ctx.Scheme|"+present[0]+"|"+cl, "trusted peer: Scheme() is not the forwarded scheme",
+					e.Violation(c, "C10|trusted-forwarded-value|Ctx.Scheme|"+p.inputClass(present[0], present[0]+"|"+cl), "trusted peer: Scheme() is not the forwarded scheme",
 						detail(map[string]any{"want": want}))
 				}
 			}
@@ -776,7 +970,7 @@ func judge(e *ev.Env, c *ev.Case, p *pair) {
 				if strings.Contains(val, ",") {
 					cl = "list-value"
 				}
-				e.Violation(c, "C10|trusted-forwarded-value|Ctx.Host|"+hHost+"|"+cl, "trusted peer: Host() is not the forwarded host", detail(map[string]any{"want": want}))
+				e.Violation(c, "C10|trusted-forwarded-value|Ctx.Host|"+p.inputClass(hHost, hHost+"|"+cl), "trusted peer: Host() is not the forwarded host", detail(map[string]any{"want": want}))
 			} else if hn, ok := hostOnly(want); ok && A.Hostname != hn {
 				e.Violation(c, "C10|trusted-forwarded-value|Ctx.Hostname|"+hHost, "trusted peer: Hostname() is not the forwarded host's name", detail(map[string]any{"want": hn}))
 			}
@@ -797,7 +991,7 @@ func judge(e *ev.Env, c *ev.Case, p *pair) {
 		if !p.cfg.validate {
 			asserted = true
 			if A.IP != val {
-				e.Violation(c, "C10|trusted-forwarded-value|Ctx.IP|validation-off|raw-header-value", "trusted peer, validation off: IP() must be the ProxyHeader value", detail(map[string]any{"want": val}))
+				e.Violation(c, "C10|trusted-forwarded-value|Ctx.IP|"+p.inputClass(p.cfg.proxyHeader, "validation-off|raw-header-value"), "trusted peer, validation off: IP() must be the ProxyHeader value", detail(map[string]any{"want": val}))
 			}
 		} else {
 			want, cls, ok := "", "none-valid", true
@@ -834,7 +1028,7 @@ func judge(e *ev.Env, c *ev.Case, p *pair) {
 						e.Violation(c, "C10|trusted-forwarded-value|Ctx.IP|validation-on|no-valid-element", "no valid address in the ProxyHeader: IP() must be the peer", detail(nil))
 					}
 				} else if A.IP != want {
-					e.Violation(c, "C10|trusted-forwarded-value|Ctx.IP|validation-on|first-valid="+cls, "trusted peer, validation on: IP() is not the first syntactically valid address of the ProxyHeader",
+					e.Violation(c, "C10|trusted-forwarded-value|Ctx.IP|"+p.inputClass(p.cfg.proxyHeader, "validation-on|first-valid="+cls), "trusted peer, validation on: IP() is not the first syntactically valid address of the ProxyHeader",
 						detail(map[string]any{"want": want}))
 				}
 			}
@@ -906,6 +1100,23 @@ func run(e *ev.Env) {
 		q := mk("127.0.0.1", &config{loopback: true, proxyHeader: "X-Forwarded-For", validate: true}, false, fwd{"X-Forwarded-For", ",8.8.8.8"})
 		q.ipElems, q.ipSent = []ipElem{{"", "invalid"}, {"8.8.8.8", "v4"}}, true
 		corpus("validation-empty-first-element", q)
+	}
+
+	{
+		// configuration derived from another app's Config(): only what is passed to New counts
+		p := mk("10.1.2.3", &config{}, false, fwd{hHost, "evil.example"}, fwd{hProto, "https"})
+		p.donor = &config{proxies: []string{"10.1.2.3"}}
+		corpus("config-from-other-app-listed-address", p)
+		q := mk("10.1.2.3", &config{}, false, fwd{hHost, "evil.example"}, fwd{hProto, "https"})
+		q.donor = &config{proxies: []string{"10.0.0.0/8"}}
+		corpus("config-from-other-app-cidr", q)
+		// field names are case-insensitive, also when parsed from the wire
+		w := mk("10.0.0.1", &config{proxies: []string{"10.0.0.1"}}, false, fwd{"x-forwarded-proto", "https"})
+		w.wire = true
+		corpus("wire-lowercase-forwarded-proto", w)
+		w2 := mk("10.0.0.1", &config{proxies: []string{"10.0.0.1"}}, false, fwd{"X-FORWARDED-SSL", "on"}, fwd{"x-forwarded-host", "front.example"})
+		w2.wire = true
+		corpus("wire-uppercase-forwarded-ssl", w2)
 	}
 
 	e.Cases("pairs", e.N(100000, 5000000), func(c *ev.Case) {
